@@ -53,6 +53,7 @@ def guarded_run(mod, plan, wall=60):
 
 def _worker(args):
     pid, tier, batch_seed, idxs, wall = args
+    import warnings; warnings.simplefilter('ignore')
     mod = load_prop(pid)
     outs = []
     for i in idxs:
